@@ -148,3 +148,23 @@ pub fn quiet_panics() {
         eprintln!("[panic] {}", loc);
     }));
 }
+
+
+/// Optional stderr logger for smoltcp's own net_debug!/net_trace! output (enabled with VH_LOG=1); diagnosis only.
+pub struct StderrLog;
+impl log::Log for StderrLog {
+    fn enabled(&self, _m: &log::Metadata) -> bool {
+        true
+    }
+    fn log(&self, r: &log::Record) {
+        eprintln!("[{}] {}", r.level(), r.args());
+    }
+    fn flush(&self) {}
+}
+pub fn init_log() {
+    if std::env::var("VH_LOG").is_ok() {
+        static L: StderrLog = StderrLog;
+        let _ = log::set_logger(&L);
+        log::set_max_level(log::LevelFilter::Trace);
+    }
+}
